@@ -225,6 +225,8 @@ class Driver:
             out["bal_hf"] = b.health_factor
         if want("apy"):
             out["supply_apy"], out["borrow_apy"] = m.supply_apy, m.borrow_apy
+            out["total_apy"] = m.total_apy
+            out["max_repay"] = {k.name: m.get_max_repay_amount(k) for k in m._borrows}
         return out
 
 
@@ -360,6 +362,23 @@ def compare_views(drv: Driver, view, tally, subset=None):
                 exp += Q(wq) * frac(AaveV3CoreLib.rate_to_apy(rate))
             if not close(code, exp, Fraction(1, 10 ** 20), Fraction(1, 10 ** 24)):
                 out.append(Mismatch("C13", key, f"{key} code {code} spec-weighted {float(exp)}"))
+        elif key == "total_apy":
+            # (supply apy x supplies - borrow apy x debts) / (supplies - debts), 0 when the difference is 0; apys as weighted above
+            tally("C13/total_apy")
+            ex = {}
+            for k2, wkey in (("s", "supply_weights"), ("b", "borrow_weights")):
+                wts = view[wkey] if isinstance(view[wkey], dict) else {}
+                ex[k2] = sum((Q(wq) * frac(AaveV3CoreLib.rate_to_apy(Decimal(RATES[t][0 if k2 == "s" else 1]))) for t, wq in wts.items()), Fraction(0))
+            S, B = Q(view["total_supply"]), Q(view["total_borrows"])
+            exp = (ex["s"] * S - ex["b"] * B) / (S - B) if S != B else Fraction(0)
+            # near cancellation of supplies and debts the 35-digit arithmetic loses relative accuracy: tolerance relative to the legs
+            if not close(code, exp, Fraction(1, 10 ** 18), Fraction(1, 10 ** 20) * (abs(ex["s"] * S) + abs(ex["b"] * B) + 1) / (abs(S - B) if S != B else 1)):
+                out.append(Mismatch("C13", key, f"total_apy code {code} spec {float(exp)}"))
+        elif key == "max_repay":
+            tally("C13/max_repay")
+            spec = view["borrows"] if isinstance(view["borrows"], dict) else {}
+            if set(code) != set(spec) or any(not cmp_q(code[t], Q(spec[t]["amount"]), REL, ABS18) for t in code):
+                out.append(Mismatch("C13", key, f"get_max_repay_amount code {code} spec { {t: float(Q(x['amount'])) for t, x in spec.items()} }"))
     return out
 
 
